@@ -26,65 +26,9 @@ import (
 
 var slotNames = [...]string{"position.x", "position.y", "position.z", "normal.x", "normal.y", "normal.z", "uv.x", "uv.y", "every-component"}
 
-// valueLadder returns the float32 bit patterns of the ladder, in a fixed order (simplest first).
-func valueLadder() []uint32 {
-	seen := map[uint32]bool{}
-	var out []uint32
-	add := func(f float64) {
-		g := float32(f)
-		if math.IsInf(float64(g), 0) || math.IsNaN(float64(g)) {
-			return
-		}
-		for _, b := range []uint32{math.Float32bits(g), math.Float32bits(-g)} {
-			if !seen[b] {
-				seen[b] = true
-				out = append(out, b)
-			}
-		}
-	}
-	for _, f := range []float64{0, 1, 0.5, 0.1, 1.0 / 3, 2, 10, 100, 255, 256, 1000, 65535, 65536, 123456.789, 1e6, 16777215, 16777216, 16777218,
-		2147483520, 2147483648, 4294967040, 4294967296, 9007199254740992, 9223371487098961920, 9223372036854775808, 9.3e18,
-		18446742974197923840, 18446744073709551616, 1e19, 3e20, 1e30, math.MaxFloat32, 1.1754943508222875e-38, math.SmallestNonzeroFloat32} {
-		add(f)
-	}
-	for k := -45; k <= 38; k++ {
-		add(math.Pow(10, float64(k)))
-		add(3 * math.Pow(10, float64(k)))
-	}
-	for e := -149; e <= 127; e++ {
-		p := math.Ldexp(1, e)
-		add(p)
-		add(p * 1.5)
-		add(p * (1 + 0x1p-23))
-		add(p * (2 - 0x1p-23))
-	}
-	return out
-}
+func valueLadder() []uint32 { return core.Float32Ladder() }
 
-func magnitudeClass(b uint32) string {
-	f := math.Abs(float64(math.Float32frombits(b)))
-	switch {
-	case f == 0:
-		if b != 0 {
-			return "negative-zero"
-		}
-		return "zero"
-	case f < 1.1754943508222875e-38:
-		return "subnormal"
-	case f < 1e-4:
-		return "tiny(<1e-4)"
-	case f < 0x1p24:
-		return "ordinary(<2^24)"
-	case f < 0x1p31:
-		return "2^24..2^31"
-	case f < 0x1p63:
-		return "2^31..2^63"
-	case f < 0x1p64:
-		return "2^63..2^64"
-	default:
-		return ">=2^64"
-	}
-}
+func magnitudeClass(b uint32) string { return core.MagnitudeClass(b) }
 
 // valueMesh: one triangle with ordinary, pairwise different values, the slot replaced by x.
 func valueMesh(slot int, x float64) (m modeling.Mesh, pos, nrm [3][3]float64, uv [3][2]float64) {
